@@ -112,6 +112,12 @@ func famDiff(f *FamCtx) {
 			f.RunTreeCase(genInterruptedDeleteCase(f.Rand, RandCfg(f.Rand)), faultRunner, multiLevel)
 			continue
 		}
+		if i%10 == 7 {
+			// set-like trees: some values are the untyped nil (never persisted: JSON would not give nil
+			// back); added / removed / changed must not be told apart by looking at the values
+			f.RunTreeCase(genNilDiffCase(f.Rand, RandCfg(f.Rand)), exactRunner, func(CaseStats) bool { return true })
+			continue
+		}
 		if i%10 == 4 {
 			// every tree persisted and read back, the diffs through ONE DiffCursor whose load number k
 			// fails once: the failed NextEntry is retried on the same cursor and the events must still
@@ -121,6 +127,47 @@ func famDiff(f *FamCtx) {
 		}
 		f.RunTreeCase(f.Gen(), exactRunner, multiLevel)
 	}
+}
+
+// genNilDiffCase: two or three in-memory trees (clones of one another, or unrelated) whose values
+// are 1 (= untyped nil), 2 or 3, diffed in both directions through both interfaces.
+func genNilDiffCase(r *rand.Rand, cfg Cfg) Case {
+	cfg.VKind = "nilu"
+	cfg = noCache(cfg)
+	uni := Universe(r, cfg, 4+r.Intn(30))
+	ops := []string{"new 0"}
+	live := map[int]map[uint64]uint64{0: {}}
+	mutate := func(s, n int) {
+		m := live[s]
+		for i := 0; i < n; i++ {
+			k := pick(r, uni)
+			if v, ok := m[k]; ok && r.Intn(3) == 0 {
+				ops = append(ops, opDel(s, k, v))
+				delete(m, k)
+				continue
+			}
+			v := uint64(1 + r.Intn(3))
+			if r.Intn(2) == 0 {
+				v = 1
+			}
+			m[k] = v
+			ops = append(ops, opIns(s, k, v))
+		}
+	}
+	mutate(0, 3+r.Intn(30))
+	if r.Intn(2) == 0 {
+		ops = append(ops, "clone 0 1")
+		live[1] = copyMap(live[0])
+	} else {
+		ops = append(ops, "new 1")
+		live[1] = map[uint64]uint64{}
+	}
+	mutate(1, 1+r.Intn(20))
+	for i := 0; i < 4; i++ {
+		a, b := i%2, 1-i%2
+		ops = append(ops, fmt.Sprintf("%s %d %d", pick(r, []string{"diff", "diffc"}), a, b))
+	}
+	return Case{cfg, ops}
 }
 
 // genRetriedDiffCase: a genDiffCase history in which every tree is persisted and reloaded before
